@@ -56,6 +56,9 @@ func solverArgs(name string) (string, []string) {
 		return "/usr/bin/z3", []string{"-in", "-smt2"}
 	case "cvc5":
 		return "cvc5", []string{"--incremental", "--strings-exp", "--produce-models", "--lang", "smt2"}
+	case "cvc5-int":
+		// integer encoding of bit-vector arithmetic that keeps the mod-2^k semantics: decides mul/div-by-constant kernels that bit-blasting does not
+		return "cvc5", []string{"--incremental", "--strings-exp", "--produce-models", "--solve-bv-as-int=sum", "--lang", "smt2"}
 	}
 	panic("unknown solver " + name)
 }
@@ -80,7 +83,7 @@ func NewSession(name string, timeoutMS int, logPath string) (*Session, error) {
 	if logPath != "" {
 		s.log, _ = os.Create(logPath)
 	}
-	if name == "cvc5" {
+	if strings.HasPrefix(name, "cvc5") {
 		s.raw("(set-logic ALL)")
 		s.raw(fmt.Sprintf("(set-option :tlimit-per %d)", timeoutMS))
 	} else {
@@ -247,7 +250,7 @@ func (s *Session) restart() {
 		panic(abort("solver restart failed: " + err.Error()))
 	}
 	s.cmd, s.in, s.out = cmd, in, bufio.NewReaderSize(out, 1<<16)
-	if s.name == "cvc5" {
+	if strings.HasPrefix(s.name, "cvc5") {
 		s.raw("(set-logic ALL)")
 		s.raw(fmt.Sprintf("(set-option :tlimit-per %d)", s.timeout))
 	} else {
@@ -530,7 +533,7 @@ func crossCheck(solver string, script []string, extra string, timeoutMS int) Sat
 	bin, args := solverArgs(solver)
 	cmd := exec.Command(bin, args...)
 	var sb strings.Builder
-	if solver == "cvc5" {
+	if strings.HasPrefix(solver, "cvc5") {
 		sb.WriteString("(set-logic ALL)\n")
 		fmt.Fprintf(&sb, "(set-option :tlimit-per %d)\n", timeoutMS)
 	} else {
